@@ -11,7 +11,7 @@ PROPERTY = "C17"
 LEVEL = "exploration"
 RULE = (
     "one case = a tape-drawn history (<= 14 operations) over the real sys.modules with fake module names: add module {with module glue, with built-in glue pending, both, neither, glue that raises}, "
-    "remove, re-add as a new module object, replace in place, register built-in glue late, extract; single-threaded histories and histories in which 2-4 baton threads enter extract concurrently while "
+    "remove, re-add as a new module object, replace in place, register built-in glue late, glue that itself imports another glue-bearing library in the middle of the pass, extract; single-threaded histories and histories in which 2-4 baton threads enter extract concurrently while "
     "glue functions hand the baton over in the middle of their work (glue_lock replaced by a baton-aware lock). Model: at the return of every extract that started after module m appeared, "
     "the right kind of glue for m ran and finished exactly once, never both kinds, never twice; a raising glue gives exactly one RuntimeWarning and later modules' glue still ran. "
     "distinct = operation-kind sequence + schedule signature"
@@ -21,7 +21,7 @@ ASSUMPTIONS = [
     "glue_lock is substituted by a baton-aware lock with the same mutual-exclusion semantics (a real Lock would deadlock the cooperative scheduler)",
 ]
 REAL_VS_STUB = {"real": ["stackscope._glue.add_glue_as_needed / builtin_glue / builtin_glue_pending", "the real sys.modules", "real threads"], "stub": ["fake modules _vsim_*", "glue functions that count and yield", "baton scheduler", "SimLock in place of glue_lock"]}
-RARE_PROBES = ["remove_then_add_same_len", "replace_in_place", "raising_glue_ran", "both_kinds_present", "late_builtin_registration", "lock_contended", "threads"]
+RARE_PROBES = ["module_appeared_during_glue_pass", "late_module_glue_ran_in_same_extraction", "remove_then_add_same_len", "replace_in_place", "raising_glue_ran", "both_kinds_present", "late_builtin_registration", "lock_contended", "threads"]
 LEGS = [
     {"name": "hist312", "python": "3.12", "quick": 20000, "thorough": 400000, "quick_s": 40, "thorough_s": 400, "run_timeout": 90, "params": {"threads": False}},
     {"name": "thr312", "python": "3.12", "quick": 6000, "thorough": 100000, "quick_s": 40, "thorough_s": 400, "run_timeout": 90, "params": {"threads": True}},
@@ -42,9 +42,13 @@ class GlueFn(object):
         self.baton = baton
         self.started = 0
         self.finished = 0
+        self.on_run = None  # world callback: a glue function that imports another library
 
     def __call__(self):
         self.started += 1
+        if self.on_run is not None:
+            cb, self.on_run = self.on_run, None
+            cb()
         if self.baton is not None:
             self.baton.yield_("glue-%s-%s" % (self.kind, self.name))
         self.finished += 1
@@ -92,8 +96,9 @@ def run(ctx):
     ops = []
     for _ in range(nops):
         op = ("add", "extract", "remove", "builtin", "replace", "readd")[t.weighted([5, 5, 2, 2, 1, 2])]
-        ops.append((op, NAMES[t.choose(len(NAMES))], t.choose(3), t.choose(8) == 1))
-    ops.append(("extract", None, 0, False))
+        ops.append((op, NAMES[t.choose(len(NAMES))], t.choose(3), t.choose(8) == 1, NAMES[t.choose(len(NAMES))] if t.choose(4) == 3 else None))
+    ops.append(("extract", None, 0, False, None))
+    ops.append(("extract", None, 0, False, None))
     ctx.case = {"ops": ops, "threaded": threaded}
 
     def mk_module(name, with_glue, raising):
@@ -105,7 +110,7 @@ def run(ctx):
             all_fns.append(fn)
         return m, fn
 
-    def do_add(name, variant, raising):
+    def do_add(name, variant, raising, importer=None):
         if name in sys.modules:
             return False
         m, fn = mk_module(name, variant != 0, raising)
@@ -114,6 +119,26 @@ def run(ctx):
         history.append(("add", name, bool(fn), raising))
         if fn is not None and name in pending:
             ctx.stat("both_kinds_present")
+        if fn is not None and importer is not None:
+            # this library's glue imports another library (which brings glue of its own) while it runs,
+            # i.e. in the middle of add_glue_as_needed's pass over sys.modules
+            other = importer
+
+            def imports_other():
+                if other in sys.modules:
+                    return
+                has_builtin = other in pending
+                m2, fn2 = mk_module(other, not has_builtin, False)
+                sys.modules[other] = m2
+                inst[other] = {"fn": fn2}
+                history.append(("add-during-glue", other, bool(fn2)))
+                ctx.stat("module_appeared_during_glue_pass")
+                # it appeared after this extraction started: its glue may run now or in the next extraction
+                for f in (fn2, pending.get(other)):
+                    if f is not None:
+                        f.flex = True
+
+            fn.on_run = imports_other
         return True
 
     def do_remove(name):
@@ -168,6 +193,16 @@ def run(ctx):
     def check_counts(where):
         for fn in all_fns:
             exp = getattr(fn, "expected", 0)
+            if getattr(fn, "flex", False):
+                fn.flex = False
+                if fn.started == 1 and fn.finished == 1 and exp == 0:
+                    # ran already during the extraction in which its module appeared: fine
+                    fn.expected = 1
+                    fn.consumed = True
+                    if fn.kind == "builtin":
+                        pending.pop(fn.name, None)
+                    ctx.stat("late_module_glue_ran_in_same_extraction")
+                    continue
             if fn.started != exp or fn.finished != exp:
                 kind = "c17_glue_ran_twice" if fn.started > max(exp, 1) else ("c17_glue_not_installed" if fn.started < exp else "c17_glue_ran_unexpectedly")
                 if fn.started == exp and fn.finished != exp:
@@ -198,9 +233,9 @@ def run(ctx):
         if not threaded:
             last_len_at_extract = None
             removed_since = False
-            for (op, name, variant, raising) in ops:
+            for (op, name, variant, raising, importer) in ops:
                 if op == "add":
-                    if do_add(name, variant, raising) and removed_since:
+                    if do_add(name, variant, raising, importer if importer != name else None) and removed_since:
                         ctx.stat("remove_then_add_same_len")
                 elif op == "remove":
                     if do_remove(name):
@@ -227,7 +262,7 @@ def run(ctx):
             ctx.stat("threads")
             # set the stage single-threaded, then let 2-4 threads extract at once
             nthreads = 2 + t.choose(3)
-            for (op, name, variant, raising) in ops:
+            for (op, name, variant, raising, importer) in ops:
                 if op == "add":
                     do_add(name, variant, raising)
                 elif op == "builtin":
